@@ -143,8 +143,11 @@ def _limit():
 def _run(cmd, timeout, cwd=None):
     t = time.time()
     # own process group, so that a timeout also kills the solver processes cbmc has spawned (z3, cvc5)
+    # temporary files of cbmc / the SMT solvers go into the job's own directory (removed with the work directory), not into /tmp: a solver that is
+    # killed on timeout leaves its problem file behind
+    env = dict(os.environ, TMPDIR=cwd) if cwd else None
     p = subprocess.Popen(cmd, stdout=subprocess.PIPE, stderr=subprocess.STDOUT, cwd=cwd, preexec_fn=_limit,
-                         start_new_session=True)
+                         start_new_session=True, env=env)
     try:
         out, _ = p.communicate(timeout=timeout)
         return p.returncode, out.decode(errors="replace"), time.time() - t
